@@ -12,13 +12,19 @@ KINDS = {0: "string", 2: "character", 4: "compressed_number", 5: "compressed_str
 
 class C03(Prop):
     id = "C03"
-    contract_modules = ["lexer", "parser"]
+    contract_modules = ["lexer", "parser", "transpiler"]
+    # the lowering of a string literal: its payload ends up inside exactly one Python constant (never as Python syntax)
+    extra_keys = ["vyxal/transpile.py::transpile_token", "literal_body_is_one_literal"]
     trusted_base = ["CPython str/list/deque semantics as encoded (DESIGN 2.2)", "z3 5.1 / cvc5 1.0.3 (unsat answers)"]
     paper_steps = [
         "tokenise == lex (proved) + payload lemmas on lex => the tokens after a literal do not depend on its payload",
         "_get_branches == gb (proved); gb looks at token.value only under kind GENERAL (definition of is_opener/is_closer/is_bar)",
+        "transpile_token (proved): a string payload is lowered to the body of one double-quoted Python literal (no bare quote, no raw newline, backslashes paired)",
         "parse(): every test on the head token agrees for two tokens of the same literal kind (branch-agree); recursion through parse(branches[..]) is the induction hypothesis",
     ]
+
+    def wants(self, name):
+        return not name.startswith("transpile_token/post#") or "string-literal" in name
 
     def kind_enum(self):
         from vyxal.lexer import TokenType
@@ -49,7 +55,7 @@ class C03(Prop):
     def search_payload(self, quick=True, model=None):
         """two programs differing only in one literal payload whose parse shapes differ"""
         kinds = ["string", "character", "compressed_number", "compressed_string", "codepage_number", "two_char"]
-        payloads = [""] + pc.SYNTAX_CHARS
+        payloads = [""] + pc.SYNTAX_CHARS + ['"', '\\"', '\\\\"', '"\\', "\n", '\\"|;', "'"]  # + quotes and backslash-quote pairs: what could end the Python constant
         if model:
             from pyvc.concrete import parse_model_value
             from pyvc.sym import STR
